@@ -35,7 +35,7 @@ fn observe(s: &VirtualSign<'_>) -> Obs {
 struct SharedBusState {
     cx: Cx,
     bus: VirtualSignBus<'static>,
-    /// one bus per sign holding only (a twin of) that sign, fed the same history
+    /// one bus per sign holding only a twin of that sign, fed only the traffic that concerns it
     shadows: Vec<VirtualSignBus<'static>>,
     addrs: Vec<Address>,
     dead: bool,
@@ -74,8 +74,18 @@ impl SharedBusState {
                 return None;
             }
         };
+        // Each shadow holds only a twin of sign i and is fed ONLY what concerns that sign: messages
+        // addressed to it, and unaddressed data messages that arrive while it is receiving. If the
+        // signs are isolated, leaving everything else out can never make a difference -- neither
+        // now nor later (hidden state included).
+        let data_msg = matches!(m, Message::SendData(..) | Message::DataChunksSent(..));
         let mut shadow_replies: Vec<Option<Message<'static>>> = Vec::with_capacity(n);
-        for sh in self.shadows.iter_mut() {
+        for (i, sh) in self.shadows.iter_mut().enumerate() {
+            let relevant = target_address(m) == Some(self.addrs[i]) || (data_msg && receiving(before[i].state));
+            if !relevant {
+                shadow_replies.push(None);
+                continue;
+            }
             match catch(|| sh.process_message(m.clone())) {
                 Ok(Ok(r)) => shadow_replies.push(r.map(|r| to_static(&r))),
                 _ => {
@@ -154,7 +164,6 @@ impl SharedBusState {
                     self.cx.fail("C14/reply-to-unaddressed-message", format!("{} got the reply {}", show(m), show_opt(&reply)));
                     return reply;
                 }
-                let data_msg = matches!(m, Message::SendData(..) | Message::DataChunksSent(..));
                 for i in 0..n {
                     if before[i] != after[i] && !(data_msg && receiving(before[i].state)) {
                         self.cx.fail(
@@ -174,14 +183,14 @@ impl SharedBusState {
                 }
             }
         }
-        // 3. bus of N = N buses of 1
+        // 3. every sign behaves exactly like a twin that only ever saw its own traffic
         for i in 0..n {
             let solo = observe(self.shadows[i].sign(0));
             if solo != after[i] {
                 self.cx.fail(
                     "C14/differs-from-solo-sign",
                     format!(
-                        "after {}: sign {:#06x} on the shared bus is {:?}/{:?}/{} page(s), alone on a bus with the same history it is {:?}/{:?}/{} page(s)",
+                        "after {}: sign {:#06x} on the shared bus is {:?}/{:?}/{} page(s); a twin that saw only the traffic concerning this sign is {:?}/{:?}/{} page(s)",
                         show(m),
                         self.addrs[i].0,
                         after[i].state,
